@@ -116,6 +116,11 @@ def gen_rows(rng, sheet, page, lang, big):
         else:
             nsub = 1
         subs = [[gen_value(rng, t, "") for (t, o) in sheet["cols"]] for _ in range(nsub)]
+        if sheet["subrow"] and rng.random() < 0.3:
+            # the 2-byte id stored in front of a sub-row is data of its own: repeated, descending or arbitrary ids do not change
+            # how many records a row has nor their order
+            mode = rng.choice(["same", "descending", "random"])
+            subs = [((0 if mode == "same" else nsub - 1 - i if mode == "descending" else rng.getrandbits(16)), v) for i, v in enumerate(subs)]
         rows.append((rid, subs))
     return rows
 
@@ -135,6 +140,7 @@ def check_rows(ctx, sheet, rows, hexd, hexh, files, via, all_ids=None):
         rows = rows + [rows[0]] + ctx.rng.sample(rows, min(len(rows), 3))
     ctx.stats.classes["read-order:" + mode] += 1
     for rid, subs in rows:
+        subs = [sv[1] if isinstance(sv, tuple) else sv for sv in subs]
         r = ctx.call("exd.read_row", hexd, hexh, rid)
         ctx.check_mon(r, ctx._insz, files=files)
         nontriv = len(types) >= 2 or len(subs) >= 2 or ex.T_STRING in types
@@ -295,7 +301,7 @@ def archive_case(ctx, rng, P):
             names.append(rng.choice(["Item", "Action", "quest/000/ClsHrv%03d_%05d" % (k, k), "custom/000/RegSea%d" % k, "Sheet%d" % k, "MixedCaseSheet%d" % k]))
         names = list(dict.fromkeys(names))
         files = {}
-        root_exl = ("EXLT,2" + "".join("\r\n%s,%d" % (n, i if i % 2 else -1) for i, n in enumerate(names))).encode()
+        root_exl = ("EXLT,2" + "".join("\r\n%s,%d" % (n, rng.choice([i, -1, -2147483648, 2147483647, 0])) for i, n in enumerate(names))).encode()
         files["exd/root.exl"] = root_exl
         sheets = {}
         for n in names:
